@@ -81,6 +81,17 @@ pub fn make_docs(rsa_fixture: &[u8], thorough: bool) -> Vec<Doc> {
 			docs.push(Doc { origin: "ring".into(), fmt: "pkcs8v1", kty, der: d.as_ref().to_vec(), public: k.public_key().as_ref().to_vec() });
 		}
 	}
+	// aws-lc-rs: RSA generation for each RSA algorithm (2048 bits; the larger sizes in the thorough tier)
+	#[cfg(feature = "aws")]
+	for alg in [&PKCS_RSA_SHA256, &PKCS_RSA_SHA384, &PKCS_RSA_SHA512] {
+		let sizes: Vec<RsaKeySize> = if thorough { vec![RsaKeySize::_2048, RsaKeySize::_3072, RsaKeySize::_4096] } else { vec![RsaKeySize::_2048] };
+		for size in sizes {
+			if let Ok(k) = KeyPair::generate_rsa_for(alg, size) {
+				let der = k.serialize_der();
+				docs.push(Doc { origin: format!("rcgen-generate_rsa_for-{}", alg_name(alg)), fmt: classify_doc(&der), kty: "rsa", der, public: k.public_key_raw().to_vec() });
+			}
+		}
+	}
 	// rcgen's own generation and export, every algorithm it can generate
 	for alg in keys::build_algs() {
 		if let Ok(k) = KeyPair::generate_for(alg) {
@@ -116,6 +127,14 @@ fn pem_label(fmt: &str) -> &'static str {
 }
 
 fn check_loaded(s: &mut Suite, what: &str, doc: &Doc, k: &KeyPair) {
+	// the key says which algorithms it goes with: exactly the one it reports
+	{
+		let compat: Vec<&'static str> = k.compatible_algs().map(alg_name).collect();
+		let each: Vec<&'static str> = keys::build_algs().into_iter().filter(|a| k.is_compatible(a)).map(alg_name).collect();
+		if compat != vec![alg_name(k.algorithm())] || each != vec![alg_name(k.algorithm())] || k.as_remote().is_some() {
+			s.rep.violate("C11:compatible-algorithms", "compatible_algs / is_compatible disagree with algorithm() (or a local key claims to be remote)", format!("{} algorithm={} compatible_algs={:?} is_compatible={:?}", what, alg_name(k.algorithm()), compat, each));
+		}
+	}
 	// same public key
 	if k.public_key_raw() != &doc.public[..] {
 		s.rep.violate("C11:same-public-key", "a loaded key has a different public key", format!("{} origin={} fmt={} kty={}", what, doc.origin, doc.fmt, doc.kty));
@@ -290,6 +309,7 @@ pub fn run(ctx: &mut Ctx) -> Report {
 		];
 		let line = format!("key-load {} auto none {} {}", backend(), doc.fmt, doc.kty);
 		let model = s.drv.ask(&line);
+		let auto_loads = KeyPair::try_from(doc.der.as_slice()).is_ok();
 		for (name, r) in autos {
 			let (real, k) = outcome(r);
 			s.rep.case(&format!("{} {} origin={}", line, name, doc.origin), true);
@@ -384,6 +404,16 @@ pub fn run(ctx: &mut Ctx) -> Report {
 				}
 				if real == "panic" {
 					s.rep.violate("C11:load-panics", "loading a key under a public algorithm constant panics", format!("entry={} {}", name, lined));
+				}
+				// a document this build loads by itself, told an algorithm of its own key type through
+				// the entry point that takes any encoding: it fits, so it must load
+				let fits = match (doc.kty, an) {
+					("rsa", "rsaSha256" | "rsaSha384" | "rsaSha512") => true,
+					("ed25519", "ed25519") | ("p256", "ecdsaP256") | ("p384", "ecdsaP384") | ("p521", "ecdsaP521") => true,
+					_ => false,
+				};
+				if fits && auto_loads && real.starts_with("(err") {
+					s.rep.violate(&format!("C11:fitting-algorithm-refused:{}:{}", doc.fmt, an), "a key document the build loads by auto-detection is refused when loaded under an algorithm of its own key type", format!("entry={} origin={} {}\nreal: {}", name, doc.origin, lined, real));
 				}
 				if let Some(k) = k {
 					if k.algorithm() != *alg {
